@@ -315,6 +315,17 @@ predefine_macro(CPPParser& parser, const string& inoption) {
 int
 main(int argc, char **argv) {
   preprocess_argv(argc, argv);
+
+  // Options and filenames may be mixed freely on our command line.  Don't let
+  // a POSIXLY_CORRECT that happens to be in the environment make getopt stop
+  // at the first filename, which would turn the options after it into
+  // filenames: the same command must mean the same thing everywhere.
+#ifdef _WIN32
+  _putenv("POSIXLY_CORRECT=");
+#else
+  unsetenv("POSIXLY_CORRECT");
+#endif
+
   string command_line;
   int i;
   for (i = 0; i < argc; i++) {
